@@ -10,7 +10,7 @@ digits, sign digit), the *_bytes conversions themselves, big-endian targets (not
 """
 from .common import *
 from . import arith
-from analysis import core
+from analysis import core, build
 
 PROP = "C15"
 INFO = dict(
@@ -29,7 +29,17 @@ def obligations(ctx, tier):
     out = []
     configs = ["Kd", "Kr", "Kdn"] if tier == "quick" else ["Kd", "Kr", "Kdn", "Krn"]
     for cfg in configs:
-        K = ctx.k(cfg)
+        try:
+            K = ctx.k(cfg)
+        except build.BuildFailed as e:
+            if cfg not in ("Kdn", "Krn"):
+                raise
+            # the nightly-feature configuration is optional: a tree that does not build with it leaves these rows undecided
+            for A in ADTS:
+                for fid in nightly_fids(A):
+                    out.append(core.Ob("%s:F:%s:%s" % (PROP, cfg, fid), PROP, "F", cfg, fid, core.UNDECIDED,
+                                       "configuration %s (feature `nightly`) does not build on this tree: %s" % (cfg, str(e)[:160])))
+            continue
         for A in ADTS:
             if cfg == "Kdn" and tier == "quick":
                 # quick tier: only the rows that exist with the nightly feature alone (the *_bytes family)
@@ -50,6 +60,13 @@ def obligations(ctx, tier):
             if cfg in ("Kdn", "Krn"):
                 out += nightly_rows(K, A)
     return out
+
+
+def nightly_fids(A):
+    fids = [inh(A, "to_ne_bytes"), inh(A, "from_ne_bytes")]
+    if is_signed(A):
+        fids += [inh(A, m) for m in ("to_be_bytes", "to_le_bytes", "from_be_bytes", "from_le_bytes")]
+    return fids
 
 
 def nightly_rows(K, A):
